@@ -95,29 +95,29 @@ theorem fifo_iter {f : State → State} {k : Key} (hf : ∀ s, FifoStep (lineOf 
   | zero => intro s; exact .refl _
   | succ n ih => intro s; exact (hf s).trans (ih _)
 
-theorem fifo_dataCmd (q : Quirks) (now : Nat) (c cid : Conn) (s : State) (cmd : Cmd) (k : Key) :
-    FifoStep (lineOf s k) (lineOf (dataCmd q now c cid s cmd) k) := by
+theorem fifo_drain (q : Quirks) (s : State) (k : Key) : FifoStep (lineOf s k) (lineOf (drain q s) k) := by
+  unfold drain
+  split
+  · exact fifo_iter (fifo_wakeOne q · k) _ _
+  · exact .refl _
+
+theorem fifo_dataCore (q : Quirks) (now : Nat) (c cid : Conn) (s : State) (cmd : Cmd) (k : Key) :
+    FifoStep (lineOf s k) (lineOf (dataCore q now c cid s cmd) k) := by
   cases cmd with
   | push op k' vs =>
-    simp only [dataCmd]
+    simp only [dataCore]
     split
     · exact .of_eq (lineOf_emit ..)
-    · have hN : FifoStep (lineOf s k) (lineOf (notifyN (if q.notifyPerElement then vs.length else 1) k'
-          (emit { s with store := pushElems op k' vs s.store, pushed := (s.pushed ++ vs.map fun v => (k', v)) } c
-            (.int (listOf (pushElems op k' vs s.store) k').length))) k) := by
-        apply FifoStep.of_eq
-        rw [lineOf_notifyN, lineOf_emit]
-        exact lineOf_congr rfl rfl k
-      split
-      · exact hN.trans (fifo_iter (fifo_wakeOne q · k) _ _)
-      · exact hN
+    · apply FifoStep.of_eq
+      rw [lineOf_notifyN, lineOf_emit]
+      exact lineOf_congr rfl rfl k
   | pop op k' =>
-    simp only [dataCmd]
+    simp only [dataCore]
     split
     · apply FifoStep.of_eq; rw [lineOf_emit]; exact lineOf_congr rfl rfl k
     · exact .of_eq (lineOf_emit ..)
   | bpop op keys t =>
-    simp only [dataCmd]
+    simp only [dataCore]
     split
     · exact .of_eq (lineOf_emit ..)
     · split
@@ -129,6 +129,10 @@ theorem fifo_dataCmd (q : Quirks) (now : Nat) (c cid : Conn) (s : State) (cmd : 
           exact .of_append
   | multi => exact .refl _
   | exec => exact .refl _
+
+theorem fifo_dataCmd (q : Quirks) (now : Nat) (c cid : Conn) (s : State) (cmd : Cmd) (k : Key) :
+    FifoStep (lineOf s k) (lineOf (dataCmd q now c cid s cmd) k) :=
+  (fifo_dataCore q now c cid s cmd k).trans (fifo_drain q _ k)
 
 theorem fifo_foldl_dataCmd (q : Quirks) (now : Nat) (c cid : Conn) (k : Key) (cmds : List Cmd) :
     ∀ s, FifoStep (lineOf s k) (lineOf (cmds.foldl (dataCmd q now c cid) s) k) := by
@@ -185,6 +189,17 @@ theorem fifo_expireOne (now : Nat) (s : State) (k : Key) :
       exact List.Sublist.append (List.Sublist.refl _) (List.sublist_cons_self e b)
     exact lineOf_sublist (s := s) (t := { s with registry := reg' }) (List.Sublist.refl _) hreg k
 
+theorem fifo_runBatch (q : Quirks) (now : Nat) (c : Conn) (k : Key) (cmds : List Cmd) :
+    ∀ s, FifoStep (lineOf s k) (lineOf (runBatch q now c cmds s) k) := by
+  induction cmds with
+  | nil => intro s; exact .refl _
+  | cons cmd r ih =>
+    intro s
+    simp only [runBatch]
+    split
+    · exact (fifo_topCmd q now c s cmd k).trans (.of_eq (lineOf_setConn ..))
+    · exact (fifo_topCmd q now c s cmd k).trans (ih _)
+
 theorem fifo_step (q : Quirks) (s : State) (e : Event) (k : Key) :
     FifoStep (lineOf s k) (lineOf (step q s e) k) := by
   cases e with
@@ -192,11 +207,7 @@ theorem fifo_step (q : Quirks) (s : State) (e : Event) (k : Key) :
   | conn c now cmds =>
     simp only [step]
     split
-    · generalize hs : s = s0
-      clear hs
-      induction cmds generalizing s0 with
-      | nil => exact .refl _
-      | cons cmd r ih => exact (fifo_topCmd q now c s0 cmd k).trans (ih _)
+    · exact (FifoStep.of_eq (lineOf_setConn ..)).trans (fifo_runBatch q now c k _ _)
     · exact .refl _
   | timeouts now => exact fifo_iter (fifo_expireOne now · k) _ _
   | hangup c =>
